@@ -143,21 +143,88 @@ def gen_file(rel):
             if t in mid:
                 i = mid.index(t)
                 add(node, a + i, a + i + 1, '-' if t == '+' else '+', 'arith')
-        elif isinstance(node, ast.Return) and node.value is not None and isinstance(node.value, ast.Name) and node.value.id == 'self':
-            pass
+    # --- second generation of operators (ids continue after the first 1581): regex literals and statements
+    import re as _re_
+
+    def regex_args(call):
+        f = call.func
+        if isinstance(f, ast.Attribute) and isinstance(f.value, ast.Name) and f.value.id in ('_re', 're') and \
+                f.attr in ('sub', 'fullmatch', 'search', 'match', 'findall', 'finditer', 'compile', 'split', 'subn'):
+            cands = list(call.args[:1]) + [k.value for k in call.keywords if k.arg == 'pattern']
+            return [a for a in cands if isinstance(a, ast.Constant) and isinstance(a.value, str)]
+        return []
+    if os.environ.get('AUTOMUTATE_GEN2'):
+        for node in ast.walk(tree):
+            if isinstance(node, ast.Call):
+                for a_ in regex_args(node):
+                    a, b = S.span(a_)
+                    lit = S.get(a, b)
+                    # work on the source text of the literal (prefix + quotes kept), one character deleted at a time
+                    m_ = _re_.match(r"""([rRfFbB]*)('{3}|"{3}|'|")""", lit)
+                    if not m_ or 'f' in m_.group(1).lower():
+                        continue
+                    q0 = m_.end()
+                    q1 = len(lit) - len(m_.group(2))
+                    body = lit[q0:q1]
+                    seen = set()
+                    for i in range(len(body)):
+                        nb = body[:i] + body[i + 1:]
+                        new = lit[:q0] + nb + lit[q1:]
+                        try:
+                            val = ast.literal_eval(new)
+                            _re_.compile(val)
+                        except Exception:
+                            continue
+                        if val in seen or val == a_.value:
+                            continue
+                        seen.add(val)
+                        add(a_, a, b, new, 'regex-del')
+                    for old_, new_ in (('+', '*'), ('*', '+'), ('+?', '+'), ('*?', '*'), ('(?<!', '(?<='), ('(?!', '(?='), ('(?<=', '(?<!'), ('(?=', '(?!')):
+                        i = body.find(old_)
+                        if i >= 0:
+                            new = lit[:q0] + body[:i] + new_ + body[i + len(old_):] + lit[q1:]
+                            try:
+                                _re_.compile(ast.literal_eval(new))
+                            except Exception:
+                                continue
+                            add(a_, a, b, new, 'regex-swap')
+            # statement deletion: simple statements inside functions (not docstrings, not the only statement of a block)
+            if isinstance(node, (ast.FunctionDef, ast.If, ast.For, ast.While, ast.With, ast.Try)):
+                for field in ('body', 'orelse', 'finalbody'):
+                    blk = getattr(node, field, None)
+                    if not isinstance(blk, list) or len(blk) < 2:
+                        continue
+                    for st_ in blk:
+                        if isinstance(st_, (ast.Assign, ast.AugAssign, ast.Expr)) and id(getattr(st_, 'value', None)) not in docstrings and \
+                                not (isinstance(st_, ast.Expr) and isinstance(st_.value, ast.Constant)):
+                            a, b = S.span(st_)
+                            add(st_, a, b, 'pass', 'stmt-del')
+                        elif isinstance(st_, ast.Raise):
+                            a, b = S.span(st_)
+                            add(st_, a, b, 'pass', 'raise-del')
+                        elif isinstance(st_, ast.Return) and st_.value is not None and not (isinstance(st_.value, ast.Name) and st_.value.id == 'self') \
+                                and fn.get(st_.lineno, '').split('.')[-1] in ('optional', 'indefinite', 'one_or_more', 'exactly', 'at_least', 'at_most', 'at_least_at_most',
+                                                                             'concat', 'either', 'enclose', 'capture', 'group', 'followed_by', 'preceded_by', 'enclosed_by',
+                                                                             'not_followed_by', 'not_preceded_by', 'not_enclosed_by', 'match_at_start', 'match_at_end',
+                                                                             'match_at_line_start', 'match_at_line_end'):
+                            a, b = S.span(st_.value)
+                            add(st_, a, b, 'self', 'return-self')
     return muts
 
 
 def cmd_gen():
     os.makedirs(OUT, exist_ok=True)
-    allm = []
+    p = os.path.join(OUT, 'mutants.json')
+    old = json.load(open(p)) if os.path.exists(p) else []
+    known = {(m['file'], m['a'], m['b'], m['new']) for m in old}
+    allm = list(old)
     for rel in FILES:
-        ms = gen_file(rel)
-        allm += ms
-        print(rel, len(ms))
-    for i, m in enumerate(allm):
-        m['id'] = i
-    json.dump(allm, open(os.path.join(OUT, 'mutants.json'), 'w'), indent=0)
+        ms = [m for m in gen_file(rel) if (m['file'], m['a'], m['b'], m['new']) not in known]
+        for m in ms:
+            m['id'] = len(allm)
+            allm.append(m)
+        print(rel, len(ms), 'new')
+    json.dump(allm, open(p, 'w'), indent=0)
     print('total', len(allm))
 
 
